@@ -1,15 +1,18 @@
 #!/bin/sh
-# run_seeded.sh [ids...] : apply each seeded change to /repo, run its property's quick check, revert.
-cd /verif
+# run_seeded.sh [ids...] : apply each seeded change to the repository, run its property's quick check, revert.
+# The repository is $TUC_REPO (default /repo); the framework is the directory this script lives in.
+V=$(cd "$(dirname "$0")/.." && pwd)
+REPO=${TUC_REPO:-/repo}
+cd "$V"
 ids="$@"; [ -z "$ids" ] && ids=$(ls seeded | grep -v RESULTS)
 # the evidence files must come from runs on the unchanged tree: keep them aside while the changed trees are checked
-rm -rf .build/evidence.keep; cp -r evidence .build/evidence.keep
-trap 'rm -rf /verif/evidence; cp -r /verif/.build/evidence.keep /verif/evidence' EXIT
+mkdir -p .build; rm -rf .build/evidence.keep; cp -r evidence .build/evidence.keep
+trap 'rm -rf "$V/evidence"; cp -r "$V/.build/evidence.keep" "$V/evidence"' EXIT
 for id in $ids; do
   prop=$(python3 -c "import json;print(json.load(open('seeded/$id/meta.json'))['property'])")
-  git -C /repo apply /verif/seeded/$id/patch.diff || { echo "$id: patch does not apply"; continue; }
+  git -C "$REPO" apply "$V/seeded/$id/patch.diff" || { echo "$id: patch does not apply"; continue; }
   out=$(./check $prop quick 2>/dev/null | grep -E "^VIOLATION" | head -1)
-  git -C /repo checkout -- .
-  [ -n "$(git -C /repo status --short)" ] && git -C /repo clean -fdq src
+  git -C "$REPO" checkout -- .
+  [ -n "$(git -C "$REPO" status --short)" ] && git -C "$REPO" clean -fdq src
   echo "$id ($prop): ${out:-NOT DETECTED}"
 done
